@@ -135,11 +135,27 @@ def set_now(v):
     _NOW[0] = v
 
 
+_ORD = {}
+_YMD = {}
+
+
+def _ymd(o):
+    r = _YMD.get(o)
+    if r is None:
+        d = _real.date.fromordinal(o)
+        r = _YMD[o] = (d.year, d.month, d.day)
+    return r
+
+
 class XDateTime:
     __slots__ = ('o', 'us')
 
     def __init__(self, year, month=None, day=None, hour=0, minute=0, second=0, microsecond=0):
-        self.o = _real.date(year, month, day).toordinal()
+        k = (year, month, day)
+        o = _ORD.get(k)
+        if o is None:
+            o = _ORD[k] = _real.date(year, month, day).toordinal()
+        self.o = o
         us = ((hour * 60 + minute) * 60 + second) * 10 ** 6 + microsecond
         self.us = us
 
@@ -164,15 +180,15 @@ class XDateTime:
     # components (day is concrete)
     @property
     def year(self):
-        return _real.date.fromordinal(self.o).year
+        return _ymd(self.o)[0]
 
     @property
     def month(self):
-        return _real.date.fromordinal(self.o).month
+        return _ymd(self.o)[1]
 
     @property
     def day(self):
-        return _real.date.fromordinal(self.o).day
+        return _ymd(self.o)[2]
 
     def weekday(self):
         return (self.o + 6) % 7
@@ -194,6 +210,8 @@ class XDateTime:
 
     # arithmetic
     def _shift(self, days, us):
+        if isinstance(us, int) and us == 0:
+            return XDateTime._mk(self.o + days, self.us)  # whole days: the time of day is untouched
         nd = self.o + days
         nus = self.us + us
         if isinstance(nus, int):
